@@ -317,10 +317,14 @@ def generic_main(prop, tier: str, seed: int) -> int:
             if f is not None:
                 known_hits[f["key"]] = f
                 continue
+            dup = next((r for r in reported if r["cls"] == v0["cls"] and r["mc"] == mc), None)
+            if dup is not None:   # minimised to a replay that is already reported
+                dup["also"] += [c["index"] for c in cases]
+                continue
             path = write_replay(prop, pid, seed, case, mc, mres, params,
                                 {"PYTHONHASHSEED": "0", "aslr": "off" if aslr_off else "on",
                                  "hook": "on"}, len(case["choices"]), prefix)
-            reported.append({"path": path, "cls": v0["cls"], "index": case["index"],
+            reported.append({"path": path, "cls": v0["cls"], "index": case["index"], "mc": mc,
                              "also": [c["index"] for c in cases[1:]], "min_reruns": used})
     except HarnessError as e:
         harness_fail.append(str(e))
